@@ -235,8 +235,11 @@ Definition step_lbl (fixed lw : bool) (s : state) (e : ev) : state * label :=
 
 Definition step (fixed lw : bool) (s : state) (e : ev) : state := fst (step_lbl fixed lw s e).
 
-(** The code that exists: the guard is scraped from the source on every run. *)
-Definition current_fixed : bool := (0 <? C21_MERGED_HEAD_GUARD)%N.
+(** The code that exists: the text between `for table in &tables[1..] {` and
+    `self.remove_head(table);` is scraped from the source on every run; the loop is guarded
+    iff it contains a comparison (`!` = byte 33 of `table.name != merged_table.name`). *)
+Definition current_fixed : bool := existsb (N.eqb 33) C21_REMOVE_LOOP_BODY.
+Definition parent_guard_scraped : N := C21_PARENT_HEAD_GUARD.
 
 Definition init_state (H : list table) (ps : list (table * list cmd)) : state :=
   mk_state H None (map (fun cp => mk_proc PIdle (snd cp) (fst cp)) ps).
